@@ -19,7 +19,8 @@ CFG = {
     "peers": [{"name": "peer1.example.org"},
               {"name": "peer2.example.org", "ips": ["10.1.0.2"], "persistent": True, "reconnect_wait": 1, "always_reconnect": True},
               {"name": "peer3.example.org"}],      # configured, never has a standing connection: its connections are its only ones
-    "apps": [{"id": env.APP_ACCT, "acct": True, "peers": [0, 1, 2], "behaviour": "answer"}],
+    "apps": [{"id": env.APP_ACCT, "acct": True, "peers": [0, 1, 2], "behaviour": "answer"},
+             {"id": env.APP_AUTH, "auth": True, "peers": [0, 2]}],     # holds its requests until an ("ans", j) event
 }
 
 
@@ -216,6 +217,24 @@ def cyc_retransmitted_duplicate(sc, i):
     sc.apply(("m", sc.std, "rt:a:1:2"))     # T flag, never answered before: delivered
 
 
+def cyc_request_pending_when_connection_lost(sc, i):
+    # a request is still with the application when its connection goes away; the application's answer is then refused
+    c = _fresh_accept(sc)
+    sc.apply(("m", c, "cer_p2"))
+    sc.apply(("m", c, "req_auth"))
+    j = len(sc.nw.requests) - 1
+    sc.apply(("eof", c) if i % 2 == 0 else ("rst", c))
+    sc.apply(("ans", j))
+
+
+def cyc_request_pending_answered_late(sc, i):
+    # the same, but the application answers while the connection still exists (the ordinary held-request transaction)
+    sc.apply(("m", sc.std, "req_auth"))
+    j = len(sc.nw.requests) - 1
+    sc.apply(("m", sc.std, "dwr"))
+    sc.apply(("ans", j))
+
+
 def cyc_dial_no_descriptor(sc, i):
     sc.nw.world.socket_fail = 1             # the next socket() raises EMFILE
     for _ in range(2):
@@ -238,6 +257,8 @@ CYCLES = collections.OrderedDict([
     ("retransmitted-duplicate-rejected", cyc_retransmitted_duplicate), ("dial-socket-creation-fails", cyc_dial_no_descriptor),
     ("only-connection-of-a-peer-closed-by-peer", cyc_idle_peer_closes), ("only-connection-of-a-peer-after-DPR", cyc_idle_peer_dpr),
     ("only-connection-of-a-peer-no-common-application", cyc_idle_peer_no_common), ("only-connection-of-a-peer-reset", cyc_idle_peer_reset),
+    ("request-pending-at-the-application-when-its-connection-is-lost", cyc_request_pending_when_connection_lost),
+    ("request-held-by-the-application-then-answered", cyc_request_pending_answered_late),
     ("only-connection-of-a-peer-garbage", cyc_idle_peer_garbage), ("garbage-and-traffic-on-two-connections-in-one-instant", cyc_two_connections_same_instant),
 ])
 
@@ -565,7 +586,7 @@ def run(tier):
     rep.sample({"example_measure_keys": sorted(run_sequence(("inbound-request-answered",), 1)[0])[:25]})
     rep.cov.update({"states": len(jobs) * 2, "transitions": total_cycles, "traces_validated_against_impl": len(jobs) * 2,
                     "distinct_measures": len(distinct), "repetitions": [lo, hi],
-                    "explanation": "each of 26 complete cycles repeated N_lo and N_hi times on a fresh node under both scheduling policies (5/40 quick, 10/100 and 10/1000 thorough) and every ordered "
+                    "explanation": "each of 28 complete cycles repeated N_lo and N_hi times on a fresh node under both scheduling policies (5/40 quick, 10/100 and 10/1000 thorough) and every ordered "
                                    "pair of cycles repeated 2 and 6 times (thorough: also a VERIF_SEED-rotated third of all ordered triples, 2 and 4 times); the measure (sizes of all containers "
                                    "structurally reachable from node, peers, connections, applications except statistics and the bounded duplicate window; live "
                                    "threads; unclosed sockets; pipes) must be equal for both repetition counts"})
